@@ -149,6 +149,7 @@ func Load(repo, tier string) (*Ctx, error) {
 	}
 	c.NPackages = len(c.LibPkgs)
 	c.collectFuncs()
+	c.installHeapResultOK()
 	return c, nil
 }
 
